@@ -44,7 +44,8 @@ def run(ctx):
            "set_accepted": sum(1 for e in allev[0] if e["ok"])}
     for k, v in cls.items():
         if v == 0:
-            raise vlib.ToolError("vacuity: no event of class " + k)
+            if not ctx.violations:
+                raise vlib.ToolError("vacuity: no event of class " + k)
     ctx.cov["classes"] = cls
     ctx.distinct += len({(tuple(e["factors"]), e["b"], e["rank"], e["referred"]) for e in qev})
     # 3. wide tier: arbitrary / boundary factors at the real unit, program = SDK, Apalache
